@@ -309,6 +309,10 @@ pub enum Mode {
 }
 
 pub struct Engine {
+    /// regress audit: the `case` text stored in the replay file that is being replayed
+    pub audit_case: Option<String>,
+    /// regress audit results: (path, stored case text equals the current decoding)
+    pub audit_out: Vec<(String, bool)>,
     pub property: String,
     pub tier: Tier,
     pub seed: u64,
@@ -356,6 +360,8 @@ impl Engine {
         let mut stats = Stats::default();
         stats.max_samples = 8;
         Engine {
+            audit_case: None,
+            audit_out: vec![],
             property: property.to_string(),
             tier,
             seed,
@@ -622,6 +628,14 @@ impl Engine {
             catch_unwind(AssertUnwindSafe(|| f(tape.as_deref(), index, &mut ctx)))
         };
         self.replayed += 1;
+        if let Some(stored) = self.audit_case.take() {
+            let now = describe(tape.as_deref(), index);
+            let path = match &self.mode {
+                Mode::Replay { path, .. } => path.clone(),
+                _ => String::new(),
+            };
+            self.audit_out.push((path, stored.trim() == now.trim() || stored.trim().is_empty()));
+        }
         let t0 = Instant::now();
         match r {
             Ok(Ok(())) => {}
